@@ -49,8 +49,8 @@ func runC20(c *Ctx) {
 	c.Rule("R20a", "order-insensitive map iteration: every range over a map only writes maps, accumulates commutatively, collects into a slice sorted before it escapes, or exits with element-independent values (listed exceptions carry a reason)", 20)
 	c.Rule("R20b", "no shared planning state: functions reachable from the planners, differs, marshalers, formatters and Checksum write no package-level variable; PlanChanges allocates its state per call and stores nothing into its receiver", 5)
 
-	c.Rule("R20c", "sibling agreement: every implementation of migrate.Dir.Files orders the files by name (sort comparator over file names / Name()), the unique key of a directory entry: a coarser key (version, description) leaves files with equal keys in map/listing order", 3)
-	checkFilesOrdering(c)
+	c.Rule("R20c", "sibling agreement: every implementation of migrate.Dir.Files orders the files by name alone (every ordered comparison of the sort comparator is over file names / Name()), the unique key of a directory entry: a coarser key (version, description) leaves files with equal keys in map/listing order, and another primary key makes the cumulative hash differ from the sibling implementations", 3)
+	checkFilesOrdering(c, "R20c")
 	c.Rule("R20d", "planning does not mutate its input: the shared planning helpers (detachReferences, DetachCycles, SortChanges, dependencies) never store into a field of a schema object through a pointer (they work on struct copies); planning the same change set twice must see the same objects", 2)
 	checkPlanningPurity(c)
 	c.Rule("R20g", "no ambient input: functions reachable (CHA, static callees) from the planners, differs, HCL marshaller, file formatter and checksum never call the clock, a random source or the process environment (time.Now/Since, math/rand, crypto/rand, os.Getenv/Hostname/…); the only time-dependent output is the file name produced by the `now` template function, which is outside this set", 1)
@@ -471,7 +471,7 @@ func checkNoSharedState(c *Ctx) {
 	}
 }
 
-func checkFilesOrdering(c *Ctx) {
+func checkFilesOrdering(c *Ctx, rule string) {
 	dir := c.dirIface()
 	n := 0
 	c.AllFuncs(false, func(fi *FuncInfo) {
@@ -495,11 +495,11 @@ func checkFilesOrdering(c *Ctx) {
 			switch fn.Pkg().Path() + "." + fn.Name() {
 			case "sort.Strings", "slices.Sort":
 				n++
-				c.Check("R20c", fi.Name+"|orders by name", call.Pos(), true, "")
+				c.Check(rule, fi.Name+"|orders by name", call.Pos(), true, "")
 			case "sort.Slice", "sort.SliceStable", "slices.SortFunc":
 				n++
 				fl, ok := call.Args[len(call.Args)-1].(*ast.FuncLit)
-				byName := false
+				byName, onlyName := false, true
 				if ok {
 					ast.Inspect(fl.Body, func(k ast.Node) bool {
 						be, ok := k.(*ast.BinaryExpr)
@@ -546,17 +546,19 @@ func checkFilesOrdering(c *Ctx) {
 						}
 						if isName(resolve(be.X)) && isName(resolve(be.Y)) {
 							byName = true
+						} else {
+							onlyName = false // another key decides first: the order differs from the siblings' plain name order
 						}
 						return true
 					})
 				}
-				c.Check("R20c", fi.Name+"|orders by name", call.Pos(), byName, "%s sorts the directory listing with a comparator that does not compare file names: files with equal keys keep the (random) order of the underlying map / listing, so the same directory hashes differently from run to run and differs from the other Dir implementations", fi.Name)
+				c.Check(rule, fi.Name+"|orders by name", call.Pos(), byName && onlyName, "%s sorts the directory listing with a comparator that does not order by file name alone: files with equal keys keep the (random) order of the underlying map / listing, so the same directory hashes differently from run to run and differs from the other Dir implementations", fi.Name)
 			}
 			return true
 		})
 	})
 	if n == 0 {
-		c.Unresolved("R20c", "sort calls in Dir.Files implementations")
+		c.Unresolved(rule, "sort calls in Dir.Files implementations")
 	}
 }
 
